@@ -35,6 +35,8 @@ NoAspa == {}
 GenV4 == {"p1", "p2", "p3"}
 ProvOf(x) == IF x[2] = "prov:a2" THEN <<"a2">> ELSE <<"a2", "a3">>
 GenChain == [c \in Sub |-> IF c = "B" THEN "A" ELSE IF c = "C" THEN "B" ELSE "A"]
+\* a chain of four: B under A, C under B, D under C
+GenDeep == [c \in Sub |-> IF c = "B" THEN "A" ELSE IF c = "C" THEN "B" ELSE "C"]
 \* B under A; C and F (a child that is not hosted here) under B
 GenForeign == [c \in Sub |-> IF c = "B" THEN "A" ELSE "B"]
 \* B under A, C under B, F under C: the parent of the child that is not hosted
